@@ -6,6 +6,7 @@ import (
 	"bytes"
 	"fmt"
 	"net"
+	"os"
 	"sort"
 	"strconv"
 	"strings"
@@ -76,6 +77,7 @@ func parseScript(s string, id int, log *[]string) *vScriptConn {
 // when write() returns, so a non-blocking accept + read after Send sees everything Send produced (no
 // goroutines, no waiting, no timing dependence).
 type vListener struct {
+	dead     bool // the port could not be bound again: the case is abandoned
 	reset    bool // accept, then reset the connection at once
 	addr     string
 	ln       *net.TCPListener
@@ -83,14 +85,23 @@ type vListener struct {
 	fds      map[string]int
 }
 
+var vSendPortSeq int
+
+// the destination's port is taken from below the kernel's ephemeral range (so that no outgoing connection of this or
+// another process can be given it while the listener is down), per process and per case
 func newVListener() *vListener {
-	l, err := net.Listen("tcp", "127.0.0.1:0")
-	if err != nil {
-		panic(err)
+	for tries := 0; tries < 200; tries++ {
+		vSendPortSeq++
+		port := 20000 + (os.Getpid()*97+vSendPortSeq)%2000
+		addr := "127.0.0.1:" + strconv.Itoa(port)
+		l, err := net.Listen("tcp", addr)
+		if err != nil {
+			continue
+		}
+		l.Close()
+		return &vListener{addr: addr, received: map[string]*bytes.Buffer{}, fds: map[string]int{}}
 	}
-	addr := l.Addr().String()
-	l.Close()
-	return &vListener{addr: addr, received: map[string]*bytes.Buffer{}, fds: map[string]int{}}
+	panic("no free port for the send listener")
 }
 
 func (v *vListener) up() {
@@ -107,7 +118,8 @@ func (v *vListener) up() {
 		time.Sleep(2 * time.Millisecond)
 	}
 	if err != nil {
-		panic(err)
+		v.dead = true // cannot listen: the rest of this case is not run
+		return
 	}
 	v.ln = ln.(*net.TCPListener)
 }
@@ -207,7 +219,19 @@ func vDialCallback(conn net.Conn) {
 		tmp := make([]byte, 16)
 		conn.Read(tmp)
 		conn.SetReadDeadline(time.Time{})
+		return
 	}
+	// as in the running proxy, every connection it dials gets a goroutine that reads from it (the responses come back
+	// on it) and hangs up when reading fails
+	go func() {
+		buf := make([]byte, 4096)
+		for {
+			if _, err := conn.Read(buf); err != nil {
+				conn.Close()
+				return
+			}
+		}
+	}()
 }
 
 func newScriptedClient(spec string, reconnectable bool, id int) *TCPClientTransport {
@@ -225,7 +249,12 @@ func init() {
 		case "client":
 			vSendTarget = newScriptedClient(a[2], a[1] == "1", 1)
 		case "backend":
-			b := &TCPBackend{localAddr: "127.0.0.1:0", backendAddr: vSendLis.addr, conn: nil, connectionEstablished: vDialCallback}
+			local := "127.0.0.1:0"
+			if len(a) > 2 && a[2] != "" && a[2] != "-" {
+				// a configured backend-local-port (the TCP backend must keep working across re-connections whatever it is)
+				local = "127.0.0.1:" + a[2]
+			}
+			b := &TCPBackend{localAddr: local, backendAddr: vSendLis.addr, conn: nil, connectionEstablished: vDialCallback}
 			if strings.HasPrefix(a[1], "s:") {
 				b.conn = parseScript(a[1], 1, &vSendLog)
 			}
@@ -260,6 +289,9 @@ func init() {
 		return "ok"
 	})
 	vReg("send msg", func(a []string) string {
+		if vSendLis != nil && vSendLis.dead {
+			return "not-run"
+		}
 		m, _ := NewRequest("MESSAGE", "sip:peer@example.com", "SIP/2.0")
 		m.AddHeader("Call-ID", "send-"+a[0])
 		m.body = []byte("payload-" + a[0] + "-" + strings.Repeat("x", 50))
@@ -286,6 +318,20 @@ func init() {
 		out = append(out, dl...)
 		out = append(out, "dials="+strconv.Itoa(len(vSendDials)))
 		return strings.Join(out, " ")
+	})
+	// send closelocal: every connection dialed so far is closed on THIS side (as the goroutine that reads from it does
+	// when the peer hangs up or sends something undecodable): the next write on it fails with "use of closed network
+	// connection"
+	vReg("send closelocal", func(a []string) string {
+		for _, c := range vSendDialed {
+			c.Close()
+		}
+		return "ok"
+	})
+	vReg("send sleep", func(a []string) string {
+		ms, _ := strconv.Atoi(a[0])
+		time.Sleep(time.Duration(ms) * time.Millisecond)
+		return "ok"
 	})
 	vReg("send end", func(a []string) string {
 		if vSendLis != nil {
